@@ -71,6 +71,49 @@ def close(x, y):
     return bool(np.abs(x - y).max() <= 1e-13 * sc) if sc > 0 else True
 
 
+def merge_part(run, cla, res):
+    """spec MergeOne / MergeLaws: DR_Event.add(..., uf_reds, method) updates a category's factors entry by entry"""
+    rows = res.tagged("MERGE")
+    if not rows:
+        raise RuntimeError("no MERGE export from TLC")
+    allrows = sorted(rows[0][0], key=repr)
+    groups = []
+    for meth in ("replace", "multiply"):
+        mr = [r_ for r_ in allrows if r_[2] == meth]
+        # four rows at a time make one (rigid, elastic, dynamic, static) update; two different strides so that every row meets others
+        for step in (1, 5):
+            for k in range(len(mr)):
+                groups.append([mr[(k + j * step) % len(mr)] for j in range(4)])
+    for grp in groups:
+        method = grp[0][2]
+        old = tuple(g[0] / 10.0 for g in grp)
+        new = tuple(None if g[1] < 0 else g[1] / 10.0 for g in grp)
+        want = tuple(g[3] / 100.0 for g in grp)
+        run.case(("uf-merge", method, old, new), part="B:uf merge")
+        for how in ("name", "callable"):
+            drdefs = cla.DR_Def(dict(se=0, uf_reds=old))
+
+            @cla.DR_Def.addcat
+            def _():
+                name = "cat"
+                desc = "c"
+                labels = ["r1"]
+                drfunc = "sol.a[:1]"
+                drdefs.add(**locals())
+
+            DR = cla.DR_Event()
+            try:
+                DR.add(None, drdefs, uf_reds=new, method=method if how == "name" else ((lambda o, n: n) if method == "replace" else (lambda o, n: o * n)))
+                got = tuple(float(x) for x in DR.Info["cat"].uf_reds)
+            except Exception as ex:
+                run.violation("DR_Event.add(uf_reds=%r, method=%r) raised %r" % (new, method, ex), {"old": old, "new": new}, {"target": "uf-merge"})
+                continue
+            if any(abs(a - b) > 1e-12 for a, b in zip(got, want)) or got not in [tuple(float(x) for x in u) for u in DR.UF_reds]:
+                run.violation("DR_Event.add(uf_reds=%r, method=%s %r) on factors %r gives %r (registered %r), the documented entry-wise rule gives %r" % (
+                    new, how, method, old, got, DR.UF_reds, want), {"old": old, "new": new, "method": method}, {"target": "uf-merge"})
+        run.trace_validated()
+
+
 def run_uf(run):
     import numpy as np
     import copy
@@ -85,6 +128,7 @@ def run_uf(run):
     run.add_tlc("MC_ApplyUF.cfg", res, "invariants UnitIsIdentity CacheInvisible; call histories of <=3 uf tuples x {shared,fresh} cache")
     table = {tuple(uf): rec for uf, rec in res.tagged("UFT")}
     hists = [h[0] for h in res.tagged("UFC")]
+    merge_part(run, cla, res)
     rnd = random.Random(run.seed)
     rng = np.random.default_rng(run.seed)
     nh = 40 if run.tier == "quick" else 600
